@@ -224,8 +224,16 @@ func multiMain(x *X) {
 	}
 	shape := Shape(base.Q)
 	var bo *Outcome
+	var baseSt *store.Store
 	for i, op := range c.Ops {
 		st, _ := opStore(c, op)
+		if i == 0 {
+			baseSt = st
+		} else if op.Tag == "repeat" && op.ExtraSeed == 0 {
+			// the plain repetition reads the very storage the base read: what the first
+			// query did to data the storage shares (label slices) is part of its input
+			st = baseSt
+		}
 		o := RunQuery(QueryRun{Op: op, Eng: NewEngine(op.Eng, nil), Store: st, Sim: x.S, Acct: st, Contract: true})
 		x.R.Evals++
 		x.S.Drain()
@@ -432,12 +440,12 @@ func GenOptim(t *testing.T, r *rand.Rand, prop, tier string, _ *atomic.Int64) *C
 // ---- C11 generator ---------------------------------------------------------------------------
 
 func GenConfig(t *testing.T, r *rand.Rand, prop, tier string, _ *atomic.Int64) *Case {
-	w, q, data, el, ql, _ := GenQuery(r, []string{"compose", "selector", "aggr", "binary", "rangefn"}[r.Intn(5)], 0, 0.25)
+	w, q, data, el, ql, _ := GenQuery(r, []string{"compose", "selector", "aggr", "binary", "rangefn", "func"}[r.Intn(6)], 0, 0.25)
 	if r.Intn(2) == 0 {
 		// series counts 0..40 against shard counts 1..8
 		data = gen.GenData(r, w, gen.DataOpt{MaxSeries: 40, Lookback: effLookback(el, ql), PStale: 0.03, PSpecial: 0.02, NoTies: strings.Contains(q, "topk") || strings.Contains(q, "bottomk"), Hist: strings.Contains(q, "h_bucket")})
 	}
-	plain := store.Cfg{}
+	plain := store.Cfg{SharedLabels: r.Intn(2) == 0} // sorted, untrimmed, no latency; may hand out the same label slices every time
 	base := Op{Q: q, Start: w.Start, End: w.End, Step: w.Step, QLookbackMs: ql, Shards: 1, Eng: Eng{LookbackMs: el, Optim: "default"}, Store: &plain, Tag: "base"}
 	c := &Case{Prop: prop, Scen: "multi", Data: data, Ops: []Op{base}, Sched: Sched{Strategy: pickStrategy(r), Seed: r.Int63()}}
 	nv := 3 + r.Intn(4)
